@@ -8,6 +8,8 @@ use verif_harness::*;
 
 #[path = "../gen.rs"]
 mod gen;
+#[path = "../hub.rs"]
+mod hub;
 
 const POOLS: [usize; 6] = [1, 2, 3, 4, 8, 16];
 const ALGS: [&str; 7] = ["vnbest", "vnfirst", "kmeans2", "kmeans3", "fm", "kl", "arcswap"];
@@ -46,6 +48,19 @@ fn main() {
                 continue;
             }
         }
+        // hub family: a high-valence vertex on the cut whose 9..40 neighbours lie in 9 or more distinct
+        // parts (10..41 parts), for the algorithms that take k-way partitions: about 1 ArcSwap case in 12,
+        // and now and then VnBest / VnFirst / KMeans with that many parts
+        let hubcase = match alg {
+            "arcswap" => r.chance(1, 12),
+            "vnbest" | "vnfirst" | "kmeans2" | "kmeans3" => r.chance(1, 40),
+            _ => false,
+        };
+        let hubg = if hubcase { Some(hub::hub(&mut r)) } else { None };
+        let n = match &hubg {
+            Some(h) => h.n,
+            None => n,
+        };
         let (wfam, ws) = gen::weights(&mut r, n);
         let two_way = matches!(alg, "fm" | "kl");
         let k = if two_way {
@@ -55,8 +70,11 @@ fn main() {
             r.range(1, 8) as usize
         };
         let mut p0 = gen::valid_partition(&mut r, n, k);
+        if let Some(h) = &hubg {
+            p0 = h.partition.clone();
+        }
         // families of initial partitions: one-sided / locally optimal-ish / unbalanced
-        if r.chance(1, 6) && n >= 2 && k >= 2 {
+        if hubg.is_none() && r.chance(1, 6) && n >= 2 && k >= 2 {
             for x in p0.iter_mut().skip(1) {
                 *x = 0;
             }
@@ -80,7 +98,7 @@ fn main() {
         let p0c = p0.clone();
         let run: Box<dyn FnOnce() -> R + Send> = match alg {
             "vnbest" | "vnfirst" => {
-                fam = wfam.to_string();
+                fam = if hubcase { format!("hubparts/{wfam}") } else { wfam.to_string() };
                 let fw = r.chance(1, 3);
                 params = format!("\"f64_weights\":{fw}");
                 let best = alg == "vnbest";
@@ -99,7 +117,7 @@ fn main() {
             "kmeans2" | "kmeans3" => {
                 let d = if alg == "kmeans2" { 2 } else { 3 };
                 let (pf, pts) = gen::points(&mut r, n, d);
-                fam = format!("{pf}/{wfam}");
+                fam = if hubcase { format!("hubparts:{pf}/{wfam}") } else { format!("{pf}/{wfam}") };
                 let max_iter = *r.pick(&[0usize, 1, 2, 5, 20]);
                 let max_balance_iter = *r.pick(&[0usize, 1, 2, 5]);
                 let imbalance_tol = *r.pick(&[0.01, 5.0, 50.0]);
@@ -127,7 +145,10 @@ fn main() {
                 })
             }
             _ => {
-                let (gf, indptr, indices, data) = gen::graph(&mut r, n);
+                let (gf, indptr, indices, data) = match hubg {
+                    Some(h) => (h.name, h.indptr, h.indices, h.data),
+                    None => gen::graph(&mut r, n),
+                };
                 fam = format!("{gf}/{wfam}");
                 input = format!(
                     "{},\"indptr\":{},\"indices\":{},\"edge_weights\":{}",
